@@ -56,50 +56,65 @@ end Qbice.Persist
 namespace Qbice.Core
 
 /-- "answers every query with the from-scratch value for those inputs - at worst by recomputing"
-    (core model: programs of input and normal queries with dynamic dependency sets, the fragment of
-    C01's theorem).  `imagesOps p ops {}` lists the content of the store after every logical write
-    batch of the history `ops` run from an empty store — the batch of every session and the one batch
+    (core model: programs of input, normal and external-input queries with dynamic dependency sets
+    and unordered read groups, the fragment of C01's theorem).  `imagesOps p ops {}` lists the
+    content of the store after every logical write batch of the history `ops` run from an empty store — the batch of every session and the one batch
     every query publishes at the end of its processing, with the dirty edges of keys still in
     progress as the store still has them; the empty store is the image before the first batch.  For
     EVERY one of these images `t` (every cut of the commit sequence), for every program and history:
     the engine reopened on it (`restart t`) satisfies the engine invariant of C01 — timestamp vs.
     verification stamps, dirty marks vs. cleaned edges, callee stored before caller —, its committed
     inputs are exactly those after a prefix `pre` of the history ("shows the inputs of some earlier
-    committed session"), and every query it answers returns the from-scratch value for those inputs;
-    it never runs out of fuel. -/
+    committed session"), its external values (first demand / last refresh) and its world are those
+    of the state `sp` the run had reached after that prefix, and every query it answers returns the
+    from-scratch value for those inputs and external values; it never runs out of fuel. -/
 theorem crash_sound_core {p : Program} (wf : WF p) (ops : List Op) {t : St}
     (ht : t ∈ ({} : St) :: imagesOps p ops {}) :
-    Inv p (restart t) ∧ ∃ pre, pre <+: ops ∧
+    Inv p (restart t) ∧ ∃ pre outs sp, pre <+: ops ∧ runOps p pre {} = .ok (outs, sp) ∧
       inputsOf (restart t) = inputsAfter pre (fun _ => none) ∧
+      extOf p (restart t) = extOf p sp ∧ (restart t).world = sp.world ∧
       ∀ k fuel, k < fuel →
         query p fuel k (restart t) ≠ .error .outOfFuel ∧
         ∀ v s', query p fuel k (restart t) = .ok (v, s') →
-          evalSpec p (inputsAfter pre (fun _ => none)) (k + 1) k = some v := by
-  have key : Inv p t ∧ ∃ pre, pre <+: ops ∧ inputsOf t = inputsAfter pre (fun _ => none) := by
+          evalSpec p (inputsAfter pre (fun _ => none)) (extOf p sp) (k + 1) k = some v := by
+  have key : Inv p t ∧ ∃ pre outs sp, pre <+: ops ∧ runOps p pre {} = .ok (outs, sp) ∧
+      inputsOf t = inputsAfter pre (fun _ => none) ∧ extOf p t = extOf p sp ∧ t.world = sp.world := by
     simp only [List.mem_cons] at ht
     cases ht with
-    | inl e => subst e; exact ⟨Inv.init p, [], by simp, rfl⟩
+    | inl e => subst e; exact ⟨Inv.init p, [], [], {}, by simp, rfl, rfl, rfl, rfl⟩
     | inr ht =>
-      obtain ⟨a, pre, hp, hi⟩ := imagesOps_ok wf ops {} (Inv.init p) t ht
-      exact ⟨a, pre, hp, hi⟩
-  obtain ⟨inv, pre, hp, hi⟩ := key
+      obtain ⟨a, pre, outs, sp, hp, hr, hi, _, he, hw, _⟩ := imagesOps_ok wf ops {} (Inv.init p) t ht
+      exact ⟨a, pre, outs, sp, hp, hr, hi, he, hw⟩
+  obtain ⟨inv, pre, outs, sp, hp, hr, hi, he, hw⟩ := key
   have inv' : Inv p (restart t) := inv.setLog []
-  refine ⟨inv', pre, hp, hi, ?_⟩
+  refine ⟨inv', pre, outs, sp, hp, hr, hi, he, hw, ?_⟩
   intro k fuel hk
   have hs := query_spec wf fuel k hk (restart t) inv'
   refine ⟨hs.not_oof, ?_⟩
   intro v s' h
   obtain ⟨_, _, _, c, _⟩ := hs.ok h
-  have : inputsOf (restart t) = inputsAfter pre (fun _ => none) := hi
-  simpa [cur, this] using c
+  have h1 : inputsOf (restart t) = inputsAfter pre (fun _ => none) := hi
+  have h2 : extOf p (restart t) = extOf p sp := he
+  simpa [cur, h1, h2] using c
 
 /-- non-vacuity: the 4-key example of C01; its first session and a round querying key 3 publish three
     batches (the session, then key 2, then key 3 — callee before caller); the store image between the
     last two has key 2 computed and key 3 absent, and the reopened engine recomputes key 3 = 30. -/
-example : WF exP ∧ (imagesOps exP [.sess [(0, 1), (1, 5)], .round [3]] {}).length = 3 ∧
-    ((imagesOps exP [.sess [(0, 1), (1, 5)], .round [3]] {})[1]?.map fun t =>
+example : WF exP ∧ (imagesOps exP [.sess [.set 0 1, .set 1 5], .round [3]] {}).length = 3 ∧
+    ((imagesOps exP [.sess [.set 0 1, .set 1 5], .round [3]] {})[1]?.map fun t =>
       ((t.nodes 2).isSome, (t.nodes 3).isSome, (query exP (fuelFor exP) 3 (restart t)).toOption.map (·.1))) =
       some (true, false, some 30) :=
   ⟨exP_wf, by decide, by decide⟩
+
+/-- non-vacuity with an external key read in an unordered group (`exQ`): the first round publishes
+    the external key 1 (pinned at world cell 1 = 7), then key 2, then key 3; a crash right after the
+    batch of key 1 leaves a store with the pinned value and without keys 2 and 3; the reopened
+    engine recomputes key 3 = 2 * (1 + 7) without running the external executor again. -/
+example : WF exQ ∧ (imagesOps exQ [.sess [.world 1 7, .set 0 1], .round [3]] {}).length = 4 ∧
+    ((imagesOps exQ [.sess [.world 1 7, .set 0 1], .round [3]] {})[1]?.map fun t =>
+      (pinsOf t 1, (t.nodes 2).isSome,
+        (query exQ (fuelFor exQ) 3 (restart t)).toOption.map fun r => (r.1, r.2.log))) =
+      some (some 7, false, some (16, [2, 3])) :=
+  ⟨exQ_wf, by decide, by decide⟩
 
 end Qbice.Core
